@@ -25,6 +25,7 @@ type Shared struct {
 	prog      *ssa.Program
 	fnInfos   sync.Map
 	harnessFns sync.Map
+	sizes     types.Sizes
 	redirects map[string]*ssa.Function
 	errType   types.Type
 	harness   *ssa.Function
@@ -165,7 +166,8 @@ type Ctx struct {
 	fnsSeen       map[string]int
 	concreteVec   []uint64
 	concretePos   int
-	allocTerms    []*Term
+	allocTracking bool
+	allocMaxTerm  *Term
 	extra         map[string]any
 }
 
